@@ -6,6 +6,7 @@ birth-date axis and paired with its option / representation twins.
 """
 import datetime
 import random
+import re
 import sys
 
 from .. import attach, core
@@ -26,6 +27,9 @@ D = datetime.date
 OPTS = [(True, False), (False, False), (True, True), (False, True)]
 CATS = ('TF', 'XC', 'ROAD')
 BOUNDARY_AGES = [8, 9, 10, 11, 12, 13, 14, 15, 16, 17, 18, 19, 20, 21, 34, 35, 36, 39, 40, 44, 45, 64, 65, 99, 100, 104, 105, 109, 110]
+
+
+ISO_VARIANT = re.compile(r'^\s*(\d{4})-?(\d{2})-?(\d{2})(?:[T ]00:00(?::00(?:\.0+)?)?)?\s*$')
 
 
 class Monitor(object):
@@ -60,8 +64,21 @@ class Monitor(object):
             try:
                 b = D.fromisoformat(b)
             except ValueError:
-                ctx.count('unjudged.birth-text')
-                return
+                # other ISO 8601 spellings of a calendar day: a midnight time part, the basic (undashed) form, blanks around it.
+                # Whether the library reads them is its own business; if it answers, the answer is that day's group
+                mt = ISO_VARIANT.match(b)
+                try:
+                    b = D(int(mt.group(1)), int(mt.group(2)), int(mt.group(3))) if mt else None
+                except ValueError:
+                    b = None
+                if b is None:
+                    ctx.count('unjudged.birth-text')
+                    return
+                form = 'iso-variant'
+                if not out.ok:
+                    ctx.count('unspecified.iso-variant-text-refused')
+                    return
+                ctx.count('judged.iso-variant-text')
         if type(b) is not D or type(m) is not D or cat not in CATS or b > m:
             ctx.count('unjudged.off-domain')
             return
@@ -93,7 +110,7 @@ class Monitor(object):
         t = self.twins.get(tk)
         if t is None:
             t = self.twins[tk] = {}
-        prev = t.get((vets, under, 'date' if form == 'iso' else 'iso'))
+        prev = t.get((vets, under, 'date' if form != 'date' else 'iso'))
         if prev is not None and prev != g:
             ctx.violation('representation:date-vs-iso-string:%s' % cat, case, prev, g)
         t[(vets, under, form)] = g
@@ -186,6 +203,10 @@ def run_shard(ctx, spec):
                 for (v, u) in OPTS:
                     attach.call(f, b, m, cat, vets=v, underage=u)
                 attach.call(f, b.isoformat(), m, cat)
+                if b.year >= 1000:
+                    for txt in (b.isoformat() + 'T00:00:00', ' ' + b.isoformat() + ' ', b.strftime('%Y%m%d'), b.isoformat() + ' 00:00:00',
+                                b.isoformat() + '\n'):
+                        attach.call(f, txt, m, cat)
             mon.boundary = False
             for b in bg:
                 attach.call(f, b, m, cat)
